@@ -279,7 +279,12 @@ def parse_dir_file_data(byte_order: str, rifx_offset, \
                 
                 elif res.chunkID == 'BITD':
                     clutData = bytes()
-                    paletteId = int(castData['palette'])
+                    # Only 8 bits bitmaps have a palette, and it can be a
+                    # name instead of a casting member number
+                    paletteId = 0
+                    palette = str(castData.get('palette', ''))
+                    if palette.lstrip('-').isdigit():
+                        paletteId = int(palette)
                     if paletteId > 0:
                         p = paletteId - 1
                         clutData = cast[p]['palette']
